@@ -382,18 +382,61 @@ def stages(tier):
     return out
 
 
+VARIANT_SPECS = [
+    ("DiffuseGeom", []),
+    ("TargetGeom", []),
+    ("SpectrumStage", []),
+    ("TausStage", ["tau_energy", "3"]),
+    ("TausStage", ["tau_exit_prob", "3"]),
+    ("TausStage", ["__call__", "1"]),
+    ("EASStage", []),
+    ("RadioStage", []),
+]
+
+
+def _mk(cls, args, variant):
+    return globals()[cls](*args, variant=variant)
+
+
 def variant_pairs():
     """(stage configured one way, the same stage configured another way): two live instances in one process"""
-    return [
-        (DiffuseGeom(0), DiffuseGeom(1)),
-        (TargetGeom(0), TargetGeom(1)),
-        (SpectrumStage(0), SpectrumStage(1)),
-        (TausStage("tau_energy", "3", 0), TausStage("tau_energy", "3", 1)),
-        (TausStage("tau_exit_prob", "3", 0), TausStage("tau_exit_prob", "3", 1)),
-        (TausStage("__call__", "1", 0), TausStage("__call__", "1", 1)),
-        (EASStage(0), EASStage(1)),
-        (RadioStage(0), RadioStage(1)),
-    ]
+    return [(_mk(c, a, 0), _mk(c, a, 1)) for c, a in VARIANT_SPECS]
+
+
+def _base_dump(cls, args, variant):
+    """run in a FRESH interpreter: per-event reference bytes of one stage variant, nothing else ever constructed"""
+    import json
+    import sys
+
+    st = _mk(cls, args, variant)
+    full = list(range(st.k))
+    r, ok = st.rows(st.make(), full)
+    sys.stdout.write("BASE:" + json.dumps([x.hex() for x in r]) + "\n")
+
+
+def fresh_bases():
+    """reference rows of every (stage, variant) computed in a process of its own (a class- or module-level cache filled
+    by another configuration cannot pollute them)"""
+    import concurrent.futures as cf
+    import json
+    import os
+    import subprocess
+    import sys
+
+    jobs = [(c, a, v) for c, a in VARIANT_SPECS for v in (0, 1)]
+
+    def one(j):
+        c, a, v = j
+        code = f"import sys; sys.path.insert(0, {str(os.path.dirname(os.path.dirname(os.path.dirname(os.path.abspath(__file__)))))!r}); from nssmc.checks.c11 import _base_dump; _base_dump({c!r}, {a!r}, {v})"
+        r = subprocess.run([sys.executable, "-c", code], capture_output=True, text=True, env=dict(os.environ))
+        for line in r.stdout.splitlines():
+            if line.startswith("BASE:"):
+                return [bytes.fromhex(x) for x in json.loads(line[5:])]
+        raise RuntimeError(f"fresh base for {j} failed: {r.stderr[-300:]}")
+
+    with cf.ThreadPoolExecutor(8) as ex:
+        res = list(ex.map(one, jobs))
+    return {(c, tuple(a), v): r for (c, a, v), r in zip(jobs, res)}
 
 
 def judge_after_error(st):
@@ -425,13 +468,11 @@ def judge_after_error(st):
     return out, n
 
 
-def judge_two_instances(sa, sb):
-    """two instances of one stage class with DIFFERENT configurations alive in one process, calls interleaved"""
+def judge_two_instances(sa, sb, bases):
+    """two instances of one stage class with DIFFERENT configurations alive in one process, calls interleaved;
+    bases: reference rows of the two variants, each computed in a fresh process"""
     out = []
     n = 0
-    bases = []
-    for st in (sa, sb):
-        bases.append([st.rows(st.make(), [i])[0][0] for i in range(st.k)])
     for order in ([0, 1, 0], [1, 0, 1, 0], [0, 0, 1], [1, 1, 0]):
         objs = [None, None]
         built = []
@@ -603,8 +644,9 @@ def run(ctx):
         ctx.tick(n, (st.name, "after_error"))
         for c, kind, seq, what in v[:2]:
             ctx.violation(c, {"kind": "after_error", "stage": st.name, "tier": tier}, "same bytes as on a fresh object", what)
-    for sa, sb in variant_pairs():
-        v, n = judge_two_instances(sa, sb)
+    fb = fresh_bases()
+    for (cname, cargs), (sa, sb) in zip(VARIANT_SPECS, variant_pairs()):
+        v, n = judge_two_instances(sa, sb, [fb[(cname, tuple(cargs), 0)], fb[(cname, tuple(cargs), 1)]])
         tot_ctx += n
         ctx.tick(n * sa.k, (sa.name, "two_instances"))
         for c, kind, order, what in v[:2]:
@@ -634,9 +676,10 @@ def replay(case):
         return out
     if case["kind"] == "two_instances":
         out = []
-        for sa, sb in variant_pairs():
+        fb = fresh_bases()
+        for (cname, cargs), (sa, sb) in zip(VARIANT_SPECS, variant_pairs()):
             if sa.name == case["stage"]:
-                out += [(c, "independent", what) for c, kind, order, what in judge_two_instances(sa, sb)[0]]
+                out += [(c, "independent", what) for c, kind, order, what in judge_two_instances(sa, sb, [fb[(cname, tuple(cargs), 0)], fb[(cname, tuple(cargs), 1)]])[0]]
         return out
     st = [s for s in stages(case.get("tier", "quick")) if s.name == case["stage"]]
     out = []
